@@ -30,7 +30,7 @@ RULE = ("histories = 1-3 coexisting models (more via new_model) + 4-40 ops out o
         "deepcopy / pickle round trip of a model (directly or through one of its agents / its AgentSet) whose copy must mirror every "
         "view with its own agent objects, go on as a model of its own - continuing its own unique_id sequence - and leave the "
         "original alone, "
-        "n = 30; every view of every model is observed after every op and the oracle is evaluated after every atomic action "
+        "n = 30; a SCALE stream in every run (registries of 1025 / 2049 / 4097 agents of three classes over two models, oracle-only: bulk create_agents, interleaved single removes, remove_all_agents, agents.do / shuffle_do(\"remove\"), re-creation; 129 / 257 agents also through the model; 21 sizes from 8 to 8193 in the thorough tier and whenever the source moved); every view of every model is observed after every op and the oracle is evaluated after every atomic action "
         "(not inside a running remove()/remove_all_agents()); non-trivial = at least 3 ops, one creation and one removal or "
         "activation; distinct = by SHA1 of the history; enumerator (thorough / on a break): all sequences of length <= 3 (4) over 21 ops")
 TRUSTED_BASE = [
@@ -84,6 +84,12 @@ E_KEY = 1
 
 
 # ------------------------------------------------------------------ generation
+def _short(l):
+    """a long id list for a message: its length, head and tail"""
+    l = list(l)
+    return l if len(l) <= 24 else f"<{len(l)} agents: {l[:8]} ... {l[-8:]}>"
+
+
 class _CtorBoom(Exception):
     pass
 
@@ -291,7 +297,45 @@ def gen_cases(rng, tier):
     # after super().__init__(), callbacks that raise in the middle of an activation, large n
     for i in range(n // 5):
         cases.append(_gen_oracle_only(rng))
-    return cases
+    return _scale_cases(tier) + cases
+
+
+# ---- SCALE stream (harness/SCALE_NOTE.md): registries whose sizes CROSS thresholds.  The big ones are implementation + oracle only
+# (thousands of agents are cheap for the implementation and the shadow-history oracle, quadratic for the list-based Gallina model);
+# the medium ones (<= 257 agents) also go through the model.
+SCALE_QUICK = [1025, 2049, 4097]
+SCALE_THOROUGH = [8, 16, 32, 64, 100, 128, 129, 255, 256, 257, 512, 1000, 1001, 1024, 1025, 2048, 2049, 3000, 4096, 4097, 8193]
+SCALE_MODEL_QUICK = [129, 257]
+SCALE_MODEL_THOROUGH = [8, 16, 17, 32, 33, 64, 65, 100, 128, 129, 255, 256, 257]
+
+
+def _scale_case(n, variant, oracle_only=True):
+    a = n // 3
+    bulk = [["create_many", 0, 0, a, "scalar", 1, "pos"], ["create_many", 0, 3, a, "scalar", 2, "kw"],
+            ["create_many", 0, 9, n - 2 * a, "scalar", 3, "pos"], ["create_many", 1, 1, 5, "scalar", 4, "pos"]]
+    singles = [["remove", k] for k in sorted({1, a, n // 2, n - 1})]          # interleaved single removes
+    if variant == 0:
+        ops = bulk + singles + [["remove_all", 0], ["create_many", 0, 1, 3, "scalar", 1, "pos"], ["remove_all", 0], ["remove_all", 1]]
+    elif variant == 1:
+        ops = bulk + [["remove_all", 0], ["create", 0, 0, 1], ["create_many", 0, 3, n, "scalar", 1, "pos"]] + singles + [["remove_all", 0]]
+    else:
+        ops = bulk + singles + ([["bulk_remove", 0, "do"], ["create_many", 0, 0, n, "scalar", 5, "pos"], ["bulk_remove", 0, "shuffle_do"]]
+                                if oracle_only else [["remove_all", 1], ["remove_all", 0], ["create_many", 0, 0, n, "scalar", 5, "pos"]])
+        ops += [["remove_all", 0]]
+    c = {"nmodels": 2, "ops": ops, "scale": n}
+    if oracle_only:
+        c["oracle_only"] = True
+    return c
+
+
+def _scale_cases(tier, rng=None):
+    big = SCALE_QUICK if tier == "quick" else SCALE_THOROUGH
+    med = SCALE_MODEL_QUICK if tier == "quick" else SCALE_MODEL_THOROUGH
+    out = [_scale_case(n, i % 3) for i, n in enumerate(big)]
+    if tier != "quick":
+        out += [_scale_case(n, (i + 1) % 3) for i, n in enumerate(big) if n >= 1000]
+    out += [_scale_case(n, i % 2, oracle_only=False) for i, n in enumerate(med)]
+    return out
 
 
 N_EXOTIC = 12
@@ -370,6 +414,8 @@ def _expand(op, nkeys=8):
 def enumerate_cases(tier, broken=False):
     """every sequence of length <= 3 (4 in the thorough tier) over 21 ops on two models"""
     depth = 4 if tier == "thorough" else 3
+    if broken:
+        yield from _scale_cases("thorough")      # the source moved: look at scale first
     for d in range(1, depth + 1):
         for seq in itertools.product(range(len(_ALPHABET)), repeat=d):
             yield {"nmodels": 2, "ops": [_expand(_ALPHABET[i]) for i in seq]}
@@ -496,6 +542,7 @@ class _Driver:
         self.s_count = [0] * case["nmodels"]   # agents ever created per model
         self.s_reordered = [False] * case["nmodels"]
         self.s_hidden = set()   # live agents taken out of model.agents through the AgentSet API
+        self.s_uids = {}        # model -> {unique_id: key of the first agent that got it}
         self.failures = []
         self.opi = 0
         self.script = {}
@@ -525,10 +572,14 @@ class _Driver:
         if type(uid) is not int or uid != exp:
             self.fail("C02/Agent.unique_id/not-sequential",
                       f"agent number {exp} created for model {m} (class {self.classes[c].__name__}) got unique_id {uid!r}; ids must be 1, 2, 3, ... in creation order per model")
-        same = [k2 for k2 in range(k) if self.s_model[k2] == m and self.s_uid[k2] == uid]
-        if same:
+        seen = self.s_uids.setdefault(m, {})
+        try:
+            first = seen.setdefault(uid, k)
+        except TypeError:
+            first = k
+        if first != k:
             self.fail("C02/Agent.unique_id/duplicate",
-                      f"unique_id {uid!r} handed out twice within model {m} (agents #{same[0]} and #{k})")
+                      f"unique_id {uid!r} handed out twice within model {m} (agents #{first} and #{k})")
         return k
 
     # ---- atomic actions (shared by top-level ops and callbacks)
@@ -685,10 +736,10 @@ class _Driver:
             ids = [self.kof(a) for a in model.agents]
             if sorted(ids) != vis or len(model.agents) != len(vis):
                 self.fail("C02/Model.agents/not-exact",
-                          f"after {site}: model {m}.agents holds agents {ids} (len {len(model.agents)}), the agents created for it and not removed are {vis}")
+                          f"after {site}: model {m}.agents holds agents {_short(ids)} (len {len(model.agents)}), the agents created for it and not removed are {_short(vis)}")
             elif not self.s_reordered[m] and ids != vis:
                 self.fail("C02/Model.agents/order",
-                          f"after {site}: model {m}.agents iterates {ids}, creation order is {vis} and nothing reordered it")
+                          f"after {site}: model {m}.agents iterates {_short(ids)}, creation order is {_short(vis)} and nothing reordered it")
             bt = model.agents_by_type
             for cls, aset in bt.items():
                 got = [self.kof(a) for a in aset]
@@ -696,7 +747,7 @@ class _Driver:
                 exp = [k for k in live if self.s_cls[k] == c]
                 if sorted(got) != exp or any(type(a) is not cls for a in aset) or len(aset) != len(exp):
                     self.fail("C02/Model.agents_by_type/not-exact",
-                              f"after {site}: model {m}.agents_by_type[{getattr(cls, '__name__', cls)}] holds {got}, the live agents of exactly that class are {exp}")
+                              f"after {site}: model {m}.agents_by_type[{getattr(cls, '__name__', cls)}] holds {_short(got)}, the live agents of exactly that class are {_short(exp)}")
             types = list(model.agent_types)
             for c in sorted({self.s_cls[k] for k in live}):
                 if self.classes[c] not in types or self.classes[c] not in bt:
@@ -708,7 +759,7 @@ class _Driver:
             hard = getattr(model, "_agents", None)
             if hard is not None and sorted(self.kof(a) for a in hard) != live:
                 self.fail("C02/Model._agents/not-exact",
-                          f"after {site}: model {m} hard references {[self.kof(a) for a in hard]}, live agents {live}")
+                          f"after {site}: model {m} hard references {_short(self.kof(a) for a in hard)}, live agents {_short(live)}")
             for k in range(len(self.born)):
                 a = self.born[k]
                 if self.s_model[k] == m:
@@ -770,7 +821,7 @@ class _Driver:
             return set()
         if k in ("remove", "deregister"):
             return {self.s_model[op[1]]} if 0 <= op[1] < len(self.born) else set()
-        if k in ("set_discard", "set_select", "create_x", "create_many_x", "create_raise"):
+        if k in ("set_discard", "set_select", "create_x", "create_many_x", "create_raise", "bulk_remove"):
             return {op[1]}
         if k == "clone_model":
             return set()
@@ -881,6 +932,24 @@ class _Driver:
                     self.adopt(a, m, c)
             self.check("create_agents")
             return [len(ret)], op
+        if kind == "bulk_remove":
+            _, m, how = op
+            if not 0 <= m < len(self.models):
+                return [-2], op
+            for k in range(len(self.born)):
+                if self.s_model[k] == m and self.s_cls[k] not in OVERRIDING:
+                    self.s_removed[k] = True
+                    self.s_hidden.discard(k)
+            self.suspend += 1
+            try:
+                if how == "do":
+                    self.models[m].agents.do("remove")
+                else:
+                    self.models[m].agents.shuffle_do("remove")
+            finally:
+                self.suspend -= 1
+            self.check(f"model.agents.{how}('remove')")
+            return [0], op
         if kind == "clone_model":
             import copy
             import pickle
@@ -1124,7 +1193,7 @@ def _op(op):
         shuf = f"(Some {L.zlist(called)})" if akind == "shuffle_do" else "None"
         sc = L.lst([L.pair(L.z(e[0]), _act(e[1])) for e in script])
         return f"Activate {L.z(m)} {cc} {shuf} {sc}"
-    if k in ("create_x", "create_many_x", "create_raise", "clone_model"):
+    if k in ("create_x", "create_many_x", "create_raise", "clone_model", "bulk_remove"):
         return "Remove (-1)"      # oracle-only operations: the Z-valued model has no counterpart (never compared)
     raise ValueError(op)
 
@@ -1135,7 +1204,7 @@ def coq_case(case):
 
 
 def op_kinds(case):
-    out = []
+    out = [f"scale/{case['scale']}agents" + ("/oracle-only" if case.get("oracle_only") else "")] if case.get("scale") else []
     for op in case["ops"]:
         if op[0] == "create_many":
             out.append(f"create_many/{op[4]}/{op[6]}")
